@@ -420,4 +420,169 @@ theorem eliminateUnused_eq (w : World NodeIds) (h : ElimHyp w) : eliminateUnused
     have hk : (w[i]).keys = (w[i]).sorted.map (·.1) := rfl
     rw [hk, zip_keys]
 
+/-! ### the abstraction of a world of `NodeIds` and the final composition -/
+
+/-- what `ref_node_synchronize_globals` sees of a world (see `IdWorld`) -/
+def absWorld (old : Int) (w : World NodeIds) : IdWorld :=
+  { old := old, k := w.map fun s => (newNodes s).toNat, live := w.map (·.keys), unused := w.map unusedArr }
+
+/-- the hypotheses of the headline theorem on the concrete world -/
+structure SyncInv (old : Int) (w : World NodeIds) : Prop where
+  old_eq : ∀ s ∈ w, s.oldN = old
+  new_ge : ∀ s ∈ w, s.oldN ≤ s.newN
+  keys_sorted : ∀ s ∈ w, s.keys.Pairwise (· ≤ ·)
+  inv : IdInv (absWorld old w)
+
+/-- the state of rank `r` after `ref_node_synchronize_globals`, in closed form -/
+def finalRank (A : IdWorld) (r : Nat) (s : NodeIds) : NodeIds :=
+  { s with sorted := s.sorted.map fun (e : Int × Nat) => (A.newId r e.1, e.2),
+           global := writeBack (s.global.map fun g => if g ≥ 0 ∧ g ≥ A.old then g + A.off r else g)
+                      (s.sorted.map fun (e : Int × Nat) => (A.newId r e.1, e.2)),
+           unusedStk := [], oldN := A.N, newN := A.N }
+
+theorem flatten_perm_of_getElem (L1 : List (List Int)) : ∀ (L2 : List (List Int)), L1.length = L2.length →
+    (∀ i (h1 : i < L1.length) (h2 : i < L2.length), (L1[i]).Perm (L2[i])) → L1.flatten.Perm L2.flatten := by
+  induction L1 with
+  | nil => intro L2 hl _; cases L2 with
+    | nil => exact List.Perm.refl _
+    | cons _ _ => simp at hl
+  | cons x xs ih =>
+    intro L2 hl h
+    cases L2 with
+    | nil => simp at hl
+    | cons y ys =>
+      simp only [List.flatten_cons]
+      apply List.Perm.append (h 0 (by simp) (by simp))
+      apply ih ys (by simpa using hl)
+      intro i h1 h2
+      exact h (i + 1) (by simp; omega) (by simp; omega)
+
+theorem range_getD_sum (k : List Nat) : ∀ r, ((List.range r).map fun q => k.getD q 0).sum = (k.take r).sum := by
+  induction k with
+  | nil => intro r; simp
+  | cons a k ih =>
+    intro r
+    cases r with
+    | zero => simp
+    | succ m =>
+      rw [List.range_succ_eq_map, List.map_cons, List.map_map, List.sum_cons, List.take_succ_cons, List.sum_cons]
+      have heq : (List.map ((fun q => (a :: k).getD q 0) ∘ Nat.succ) (List.range m))
+          = List.map (fun q => k.getD q 0) (List.range m) := by
+        apply List.map_congr_left; intro q _; simp
+      rw [heq, ih m]; simp
+
+theorem sum_cast (k : List Nat) : (k.map Int.ofNat).sum = ((k.sum : Nat) : Int) := by
+  induction k with
+  | nil => rfl
+  | cons a k ih => simp [ih]
+
+theorem sortedUnused_shifted (old : Int) (s : NodeIds) (off tot : Int) :
+    (sortedUnused (shiftedRank old off tot s)).Perm ((unusedArr s).map (shiftId old off)) := by
+  unfold sortedUnused
+  refine (sortGlob_perm _).trans ?_
+  simp [unusedArr, shiftedRank, List.map_reverse]
+
+theorem keys_shifted (old : Int) (s : NodeIds) (off tot : Int) :
+    (shiftedRank old off tot s).keys = s.keys.map (shiftId old off) := by
+  simp [NodeIds.keys, shiftedRank, List.map_map, Function.comp]
+
+section final
+variable (old : Int) (w : World NodeIds) (h : SyncInv old w)
+include h
+
+theorem ev_eq : w.map newNodes = (absWorld old w).k.map Int.ofNat := by
+  simp only [absWorld, List.map_map]
+  apply List.map_congr_left
+  intro s hs
+  have := h.new_ge s hs
+  simp only [Function.comp, newNodes]
+  exact (Int.toNat_of_nonneg (by omega)).symm
+
+theorem off_eq (r : Nat) : isum ((w.map newNodes).take r) = (absWorld old w).off r := by
+  rw [isum_eq_sum, ev_eq old w h, ← List.map_take, sum_cast]
+  unfold IdWorld.off
+  have : (List.map (absWorld old w).kOf (List.range r))
+      = List.map (fun q => (absWorld old w).k.getD q 0) (List.range r) := rfl
+  rw [this, range_getD_sum]
+
+theorem total_eq : isum (w.map newNodes) + old = (absWorld old w).M := by
+  rw [isum_eq_sum, ev_eq old w h, sum_cast]
+  unfold IdWorld.M
+  have : (absWorld old w).old = old := rfl
+  rw [this]; omega
+
+theorem shiftNew_closed :
+    shiftNew w = w.mapIdx fun r s => shiftedRank old ((absWorld old w).off r) (isum (w.map newNodes)) s := by
+  rw [shiftNew_eq]
+  apply List.ext_getElem
+  · simp
+  · intro i h1 h2
+    have hi : i < w.length := by simpa using h2
+    simp only [List.getElem_mapIdx]
+    rw [shiftRank_eq _ _ _ (h.keys_sorted _ (List.getElem_mem hi)), h.old_eq _ (List.getElem_mem hi),
+      off_eq old w h]
+
+theorem Us_perm : (Us (shiftNew w)).flatten.Perm (absWorld old w).shiftedUnused := by
+  rw [shiftNew_closed old w h]
+  unfold IdWorld.shiftedUnused
+  apply flatten_perm_of_getElem
+  · simp [Us, absWorld]
+  · intro i h1 h2
+    have hi : i < w.length := by simpa [Us] using h1
+    simp only [Us, List.getElem_map, List.getElem_mapIdx, absWorld]
+    exact sortedUnused_shifted old _ _ _
+
+theorem elimHyp_shiftNew : ElimHyp (shiftNew w) := by
+  have hperm := Us_perm old w h
+  refine ⟨hperm.nodup_iff.mpr h.inv.unused_nodup, ?_, ?_⟩
+  · intro s' hs'
+    rw [shiftNew_closed old w h] at hs'
+    obtain ⟨i, hi, rfl⟩ := List.mem_iff_getElem.mp hs'
+    have hi' : i < w.length := by simpa using hi
+    simp only [List.getElem_mapIdx]
+    rw [keys_shifted, List.pairwise_map]
+    refine (h.keys_sorted _ (List.getElem_mem hi')).imp ?_
+    intro a b hab
+    rcases Int.lt_or_eq_of_le hab with hlt | heq
+    · exact le_of_lt (shiftId_strictMono _ _ (off_nonneg _ i) a b hlt)
+    · rw [heq]
+  · intro s' hs' g hg hmem
+    rw [shiftNew_closed old w h] at hs'
+    obtain ⟨i, hi, rfl⟩ := List.mem_iff_getElem.mp hs'
+    have hi' : i < w.length := by simpa using hi
+    simp only [List.getElem_mapIdx] at hg
+    rw [keys_shifted] at hg
+    obtain ⟨g0, hg0, rfl⟩ := List.mem_map.mp hg
+    have hlive : g0 ∈ (absWorld old w).liveOf i := by
+      simp only [IdWorld.liveOf, absWorld]
+      rw [List.getD_eq_getElem?_getD, List.getElem?_eq_getElem (by simpa using hi')]
+      simpa using hg0
+    exact h.inv.live_not_unused i g0 hlive (hperm.mem_iff.mp hmem)
+
+/-- **the unrolling**: under the invariant the loop-by-loop model equals the closed form on every rank -/
+theorem syncGlobals_eq : syncGlobals w = w.mapIdx fun r s => finalRank (absWorld old w) r s := by
+  unfold syncGlobals
+  rw [eliminateUnused_eq _ (elimHyp_shiftNew old w h)]
+  have hperm := Us_perm old w h
+  unfold elimClosed
+  generalize hU : (Us (shiftNew w)).flatten = U at hperm
+  rw [shiftNew_closed old w h]
+  apply List.ext_getElem
+  · simp
+  · intro i h1 h2
+    have hi : i < w.length := by simpa using h2
+    simp only [List.getElem_map, List.getElem_mapIdx, shiftedRank, finalRank, NodeIds.initNGlobal, List.map_map]
+    have hN : isum (w.map newNodes) + old - (U.length : Int) = (absWorld old w).N := by
+      rw [total_eq old w h, hperm.length_eq]; rfl
+    have hs : (List.map ((fun (e : Int × Nat) => (elim U e.1, e.2)) ∘ fun e => (shiftId old ((absWorld old w).off i) e.1, e.2))
+        (w[i]).sorted) = List.map (fun (e : Int × Nat) => ((absWorld old w).newId i e.1, e.2)) (w[i]).sorted := by
+      apply List.map_congr_left
+      intro e _
+      simp only [Function.comp, IdWorld.newId]
+      rw [elim_perm U _ hperm]; rfl
+    rw [hs, hN]
+    rfl
+
+end final
+
 end Refine.Lemmas.DistSync
